@@ -4,7 +4,10 @@ package route
 
 import (
 	"context"
+	"errors"
 	"net"
+
+	"github.com/cloudwego/hertz/pkg/app/server/registry"
 
 	zz "github.com/cloudwego/hertz/internal/zzverif"
 	"github.com/cloudwego/hertz/pkg/network"
@@ -16,7 +19,7 @@ type zzTransport struct {
 	hadDeadline bool
 }
 
-func (t *zzTransport) Close() error                       { t.closes++; return nil }
+func (t *zzTransport) Close() error { t.closes++; return nil }
 func (t *zzTransport) Shutdown(ctx context.Context) error {
 	t.shutdowns++
 	_, t.hadDeadline = ctx.Deadline()
@@ -57,4 +60,76 @@ func ZZ_C18_H2() {
 	err2 := e.Shutdown(context.Background())
 	zz.Assert("second-shutdown-reports-error", err2 == errStatusNotRunning)
 	zz.Assert("second-shutdown-does-not-touch-transport", tr.shutdowns == 1 && hookRan == 1)
+}
+
+type zzRegistry struct {
+	fail  bool
+	calls int
+}
+
+var errZZRegistry = errors.New("zz: deregister failed")
+var errZZTransport = errors.New("zz: transport shutdown failed")
+
+func (r *zzRegistry) Register(info *registry.Info) error { return nil }
+func (r *zzRegistry) Deregister(info *registry.Info) error {
+	r.calls++
+	if r.fail {
+		return errZZRegistry
+	}
+	return nil
+}
+
+type zzFailingTransport struct {
+	zzTransport
+	fail bool
+}
+
+func (t *zzFailingTransport) Shutdown(ctx context.Context) error {
+	t.zzTransport.Shutdown(ctx) //nolint:errcheck
+	if t.fail {
+		return errZZTransport
+	}
+	return ctx.Err()
+}
+
+// ZZ_C18_H3: "shutdown hooks run" on every exit of Shutdown. The hook goroutine is scheduled as
+// late as possible (it only runs once Shutdown blocks waiting for it), the service registry's
+// Deregister and the transport's Shutdown succeed or fail: in every combination all hooks have
+// run by the time Shutdown returns (the exit wait time is far away), each exactly once, and a
+// failing step's error is reported.
+func ZZ_C18_H3() {
+	e := zzNewEngine()
+	tr := &zzFailingTransport{fail: zz.Choose("transportFails", 2) == 1}
+	e.transport = tr
+	useRegistry := zz.Choose("registry", 3) // 0 none, 1 ok, 2 failing
+	reg := &zzRegistry{fail: useRegistry == 2}
+	if useRegistry > 0 {
+		e.options.Registry = reg
+	}
+	e.status = statusRunning
+	nhooks := zz.Range("hooks", 1, 3)
+	ran := make([]int, nhooks)
+	for i := 0; i < nhooks; i++ {
+		i := i
+		e.OnShutdown = append(e.OnShutdown, func(ctx context.Context) { zz.Slow(); ran[i]++ })
+	}
+	err := e.Shutdown(context.Background())
+	zz.Cover("reached-assert", true)
+	zz.Cover("early-exit", err != nil)
+	all := true
+	for _, n := range ran {
+		if n != 1 {
+			all = false
+		}
+	}
+	zz.Assert("every-hook-ran-exactly-once-before-shutdown-returned", all)
+	zz.Assert("status-is-shutdown", e.status == statusShutdown)
+	if useRegistry == 2 {
+		zz.Assert("deregister-error-reported", err == errZZRegistry)
+	} else if tr.fail {
+		zz.Assert("transport-error-reported", err == errZZTransport)
+		zz.Assert("deregistered-first", useRegistry == 0 || reg.calls == 1)
+	} else {
+		zz.Assert("clean-shutdown", err == nil && tr.shutdowns == 1)
+	}
 }
